@@ -107,6 +107,39 @@ def check(case, stats, scratch, profile):
         stats.sample({"origin": case["origin"], "result": label, "text": next(iter(case["files"].values()))[:300]})
 
 
+OPERANDS = [
+    # (name, declaration lines, expression)
+    ("i32", ["vi : i32 = 5;"], "vi"), ("u8", ["vu : u8 = 200;"], "vu"), ("i64", ["vl : i64 = 7;"], "vl"), ("f32", ["vf : f32 = 1.5;"], "vf"), ("f64", ["vd : f64 = 5.0;"], "vd"),
+    ("bool", ["vb : bool = true;"], "vb"), ("char", ["vc : char = 'c';"], "vc"), ("str", ['vs : str = "s";'], "vs"), ("ptr", ["pv : i32 = 1;", "vp : ^i32 = ^pv;"], "vp"),
+    ("struct", ["vst : OpS = OpS.{ a = 1 };"], "vst"), ("enum", ["ve : OpE = OpE.A;"], "ve"), ("opt", ["vo : ?i32 = 3;"], "vo"), ("array", ["va : [2]i32 = i32.[1, 2];"], "va"),
+    ("int-lit", [], "2"), ("float-lit", [], "2.5"), ("nil", [], "nil"), ("type", [], "i32"), ("distinct", ["vdi : OpD = OpD.(4);"], "vdi"), ("slice", ["vsa : [2]u8 = u8.[1, 2];", "vsl : []u8 = vsa;"], "vsl"),
+]
+BINOPS = ["+", "-", "*", "/", "%", "<", "<=", ">", ">=", "==", "!=", "&", "|", "~", "<<", ">>", "&&", "||"]
+ASSIGNOPS = ["=", "+=", "-=", "*=", "/=", "%=", "&=", "|=", "~=", "<<=", ">>=", "&&=", "||="]
+UNOPS = ["-", "!", "~", "^", "^mut "]
+
+
+def operator_matrix():
+    """every (left operand kind, operator, right operand kind) statement, one per program: the type checker must either
+    accept it or reject it, never let it through to a panic in codegen"""
+    head = "OpS :: struct { a: i32 };\nOpE :: enum { A, B: i32 };\nOpD :: distinct i32;\n"
+    out = []
+    for ln, ld, le in OPERANDS:
+        for rn, rd, re_ in OPERANDS:
+            decls = "\n    ".join(dict.fromkeys(ld + rd))
+            for op in BINOPS:
+                out.append((f"{ln} {op} {rn}", head + f"main :: () {{\n    {decls}\n    r :: {le} {op} {re_};\n}}\n"))
+            if ld:
+                for op in ASSIGNOPS:
+                    out.append((f"{ln} {op} {rn}", head + f"main :: () {{\n    {decls}\n    {le} {op} {re_};\n}}\n"))
+        for op in UNOPS:
+            out.append((f"{op}{ln}", head + f"main :: () {{\n    {chr(10).join('    ' + d for d in ld)}\n    r :: {op}{le};\n}}\n"))
+        for rn, rd, re_ in OPERANDS:
+            decls = "\n    ".join(dict.fromkeys(ld + rd))
+            out.append((f"{rn}.({ln})", head + f"main :: () {{\n    {decls}\n    r :: {rn if rn in ('i32', 'u8', 'i64', 'f32', 'f64', 'bool', 'char', 'str') else 'OpS' if rn == 'struct' else 'OpE' if rn == 'enum' else 'OpD' if rn == 'distinct' else 'u16'}.({le});\n}}\n"))
+    return out
+
+
 def _corpus_worker(args):
     widx, texts, open_keys, collect_all = args
     stats = core.Stats()
@@ -142,7 +175,8 @@ def replay_payload(payload, scratch):
     return None
 
 
-RULE = ("inputs = token soups, structured soups, unicode strings, 1-3-step mutations of the examples / core / repository test corpus and near-valid type-error programs (the capyv-lib GEN mix, "
+RULE = ("inputs = the operator matrix (every binary / compound-assignment / unary operator and cast between 19 kinds of operand, one statement per program; 1/8 of the ~11000 programs "
+        "per quick run, all in the thorough tier), token soups, structured soups, unicode strings, 1-3-step mutations of the examples / core / repository test corpus and near-valid type-error programs (the capyv-lib GEN mix, "
         "each also with a `main` appended), plus generated well-typed programs with 1-3 token-level mutations, single- and multi-file; every input is compiled by the real CLI in its own "
         "process (4 GiB address-space cap, 20 s watchdog, 90 s on re-run). Non-trivial = the input got past the parser (accepted, or rejected with a semantic diagnostic); distinct by input text.")
 
@@ -165,6 +199,12 @@ def run(ctx):
         print("capyv-lib GEN failed:\n" + pr.stdout.decode("utf-8", "replace")[-2000:])
         return 2
     texts = []
+    # the operator matrix: all of it in the thorough tier, a seeded sample of it in the quick tier
+    matrix = [t for _, t in operator_matrix()]
+    if not ctx.thorough and not os.environ.get("CAPYV_C06_FULL_MATRIX"):
+        matrix = [t for k, t in enumerate(matrix) if h64(ctx.seed, "opmatrix", k) % 8 == 0]
+    texts += matrix
+    ctx.extra["operator_matrix_programs"] = len(matrix)
     for name in sorted(os.listdir(gen_dir)):
         raw = open(os.path.join(gen_dir, name), "rb").read()
         if len(raw) <= 65536:
